@@ -114,6 +114,7 @@ type obligationReport struct {
 	Second  string  `json:"confirmed_by,omitempty"`
 	Seconds float64 `json:"solver_s"`
 	Paths   int     `json:"path_instances"`
+	MaxS    float64 `json:"slowest_instance_s,omitempty"`
 	Goal    string  `json:"goal,omitempty"`
 }
 
@@ -182,7 +183,7 @@ func cmdCheck(args []string) int {
 		}
 	}
 	loadS := time.Since(t0).Seconds()
-	timeout := 10 * time.Second
+	timeout := 30 * time.Second
 	confirm := false
 	if *tier == "thorough" {
 		timeout = 60 * time.Second
@@ -334,7 +335,7 @@ func cmdCheck(args []string) int {
 			}
 			totalObl++
 			solverTime += a.Seconds
-			r := obligationReport{Name: a.Name, Kind: a.Kind, Fn: shortFn(a.Fn), Status: a.Status, Solver: a.Solver, Second: a.Second, Seconds: round3(a.Seconds), Paths: a.Instances, Goal: a.Text}
+			r := obligationReport{Name: a.Name, Kind: a.Kind, Fn: shortFn(a.Fn), Status: a.Status, Solver: a.Solver, Second: a.Second, Seconds: round3(a.Seconds), Paths: a.Instances, Goal: a.Text, MaxS: round3(a.MaxSecs)}
 			reports = append(reports, r)
 			if a.OK {
 				totalOK++
